@@ -73,6 +73,27 @@ package criteria_mixing
 
 // parseProps: the ratio is the requested one (0.5 when omitted) and it is validated AFTER decoding
 //@ func parseProps
-//@   property C20 C18 C09 C01
+//@   property C20 C18 C09 C01 C07
 //@   ensures [requested_ratio_validated] fresh(result) && result.MixingRatio == (decoded_has(*props, "MixingRatio") ? decoded_real(*props, "MixingRatio") : 0.5)
 //@             && 0.0 <= result.MixingRatio && result.MixingRatio <= 1.0
+
+// the registered object holds exactly the collaborators it was built with, each in its own role
+//@ func NewCriteriaMixing
+//@   property C18 C09 C07 C20
+//@   nopanic
+//@   ensures [wired_as_given] result != nil && fresh(result) && result.generatorSource == generatorSource && result.referenceCriteriaManager == referenceCriteriaManager
+
+// ---- wire format: the JSON names under which requests are read and responses are written (struct tags; encoding/json
+// itself is outside the verified code).  A renamed or omitempty field changes what a client sees without changing any Go value.
+//@ wire CriteriaMixingParams
+//@   property C01 C07 C18 C20
+//@   json RandomSeed=randomSeed MixingRatio=mixingRatio
+//@ wire MixedCriterion
+//@   property C01 C07 C18 C20
+//@   json Component1=component1 Component2=component2 NewCriterion=newCriterion Params=params
+//@ wire CriterionComponent
+//@   property C01 C07 C18 C20
+//@   json Id=id Type=type ScaledValues=scaledValues
+//@ wire MixedCriterionValue
+//@   property C01 C07 C18 C20
+//@   json Value=value
